@@ -53,6 +53,18 @@ def expected_constant_type(tok_type, spelling):
     raise ValueError(tok_type)
 
 
+import re as _re
+
+_UNI_DIGIT_ESCAPE = _re.compile(r"\\[0-9]+[^\x00-\x7f]")
+
+
+def _unicode_digit_escape(text):
+    """A backslash-digits escape directly followed by a non-ASCII decimal digit
+    inside a character constant (separately signed)."""
+    m = _UNI_DIGIT_ESCAPE.search(text)
+    return m is not None and m.group(0)[-1].isdigit() and "'" in text[:m.start()]
+
+
 def _ucn_char(it):
     """A character constant (single or multi-character) containing a UCN."""
     return it.why == "ucn" and it.type is not None and not it.type.endswith("STRING_LITERAL")
@@ -85,6 +97,8 @@ def judge_text(text, items=None):
         if any(_ucn_char(it) for it in cand):
             # separately signed: universal character name in a character constant
             fails = [("ucn-in-char-const", fails[0][1])]
+        elif _unicode_digit_escape(text):
+            fails = [("unicode-digit-in-decimal-escape", fails[0][1])]
     return fails, items, toks, errs
 
 
@@ -174,6 +188,8 @@ def _judge_variants(s, hist, acc, parse=True):
         for sig, det in parser_check(s, items[0].type):
             if _ucn_char(items[0]):
                 sig = "ucn-in-char-const"
+            elif _unicode_digit_escape(s):
+                sig = "unicode-digit-in-decimal-escape"
             _record(acc, sig, {"text": s, "parser": True, "type": items[0].type}, det)
 
 
@@ -234,6 +250,69 @@ def escape_bodies():
     return out
 
 
+# non-ASCII characters that Python's \d / \w / str.isdigit / str.isalpha
+# accept: decimal digits of other scripts and other "alphanumerics"
+NON_ASCII = [chr(0x0663), chr(0x0968), chr(0xFF15), chr(0x1D7D3), chr(0x00B2), chr(0x00E9),
+             chr(0x2160)]
+
+
+def non_ascii_family():
+    """Every well-formed numeric literal of the tables (and escapes in
+    character / string literals, identifiers, #line numbers) with ONE digit or
+    letter position replaced by a non-ASCII digit / alphanumeric.  Such a
+    spelling is not a well-formed literal of that kind for the reference: it
+    may be split or reported, never returned as one literal token."""
+    templates = []
+    for b in lexvocab.INT_BODIES:
+        for suf in lexvocab.INT_SUFFIXES:
+            templates.append(b + suf)
+    for b in lexvocab.FLOAT_BODIES + ["2.5e-12", "0x1p5", ".5e3f", "1e3"]:
+        for suf in lexvocab.FLOAT_SUFFIXES:
+            templates.append(b + suf)
+    for p in PREFIXES:
+        for q in ("'", '"'):
+            templates += [p + q + BS + "x41" + q, p + q + BS + "101" + q, p + q + BS + "0" + q]
+    templates += ["x3", "e1", "a", "_1", "# 3", "#line 13 " + '"f"', "# 1 " + '"f" 3']
+    out = []
+    seen = set()
+    for t in templates:
+        if lexref.classify(t)[0] != lexref.ACCEPT and not t.startswith("#"):
+            continue
+        for i, ch in enumerate(t):
+            if not (ch.isdigit() or ch.isalpha()):
+                continue
+            for r in NON_ASCII:
+                sp = t[:i] + r + t[i + 1:]
+                if sp not in seen:
+                    seen.add(sp)
+                    out.append(("non-ascii", sp))
+        for r in NON_ASCII:           # and appended / prepended
+            for sp in (t + r, r + t):
+                if sp not in seen:
+                    seen.add(sp)
+                    out.append(("non-ascii", sp))
+    return out
+
+
+LONG_LENGTHS = [4094, 4095, 4096, 4097, 5000, 70000]
+
+
+def long_string_family():
+    """Well-formed string literals with very long bodies, for each prefix:
+    plain characters and escapes-only bodies (MUST-ACCEPT: one token, one
+    Constant with the exact spelling)."""
+    out = []
+    for p in PREFIXES:
+        for n in LONG_LENGTHS:
+            out.append(("long-string", p + '"' + "a" * n + '"'))
+            out.append(("long-string", p + '"' + "ab c" * (n // 4) + "d" * (n % 4) + '"'))
+        for n in (1364, 1365, 1366, 1367, 5000, 70000):
+            out.append(("long-string", p + '"' + (BS + "x41") * n + '"'))
+            out.append(("long-string", p + '"' + (BS + "101") * n + '"'))
+            out.append(("long-string", p + '"' + (BS + "n") * n + '"'))
+    return out
+
+
 def table_literals():
     lits = []
     for b in lexvocab.INT_BODIES:
@@ -253,6 +332,7 @@ def table_literals():
             if l <= 2:
                 for p in PREFIXES[1:]:
                     lits.append(("multichar", p + "'" + "".join(m) + "'"))
+    lits += non_ascii_family()
     # comments (a compatible preprocessor removes them; the lexer must report)
     for t in ("/*", "//", "/**/", "a/*b*/", "1//2", "1/ /2", "/ *", "'/*'", '"//"'):
         lits.append(("comment", t))
@@ -518,8 +598,12 @@ def run(tier):
     charex_strings = tot["strings"]
     # (B)
     table = table_literals()
-    for acc in core.pmap(_table_work, core.chunked(table, 400), chunksize=1):
+    long_strings = long_string_family()
+    # longest first, two per task (a 70 000-character literal costs seconds)
+    long_strings.sort(key=lambda x: -len(x[1]))
+    for acc in core.pmap(_table_work, core.chunked(long_strings, 2) + core.chunked(table, 400), chunksize=1):
         merge(acc)
+    table = table + long_strings
 
     # (D)
     runs = list(string_runs())
@@ -559,6 +643,8 @@ def run(tier):
                {"accept": sorted(acc_types), "reject": sorted(rej), "dontcare": sorted(dc),
                 "ctypes": sorted(ctypes)},
                "the reference does not reach all its verdict classes")
+    if "dontcare:non-ascii" not in hist or not any(len(t) > 70000 for _, t in table):
+        R.fail("vacuous:non-ascii-or-long-strings", {}, "non-ASCII / long-string families not explored")
     if tot["parsed"] < 10000:
         R.fail("vacuous:parser-part", {"parsed": tot["parsed"]}, "too few literals went through the parser")
 
@@ -588,7 +674,8 @@ def run(tier):
                      "float_bodies": lexvocab.FLOAT_BODIES,
                      "float_suffixes": lexvocab.FLOAT_SUFFIXES + lexvocab.BAD_FLOAT_SUFFIXES,
                      "escape_bodies": len(escape_bodies()), "prefixes": PREFIXES,
-                     "multichar_bodies<=": 5, "string_run_length<=": 3, "string_run_bodies": RUN_BODIES,
+                     "multichar_bodies<=": 5, "non_ascii_replacements": ["U+%04X" % ord(c) for c in NON_ASCII],
+                     "long_string_body_lengths": LONG_LENGTHS, "string_run_length<=": 3, "string_run_bodies": RUN_BODIES,
                      "string_run_contexts": sorted(RUN_CONTEXTS), "string_run_separators": [" ", ""]})
     R.assumptions += [
         "DONT-CARE zone (never alarmed): pycparser's documented lenient escapes, decimal escapes, \\x without digits, "
